@@ -262,6 +262,25 @@ def handleBatch (env : Env) (val : Str) (events : List EthEvent) : Except Fail (
 /-- `CreateOracleClaimFromEthClaim`: the prophecy id all validators must agree on -/
 def claimId (c : Claim) : Str := decInt c.chainId ++ decInt c.nonce ++ c.sender
 
+/-! ### the claim content the validators agree on (x/ethbridge/types/claim.go)
+
+  `CreateOracleClaimFromEthClaim` packs receiver, amount, symbol, token contract and claim type of the relayed
+  claim with `NewOracleClaimContent` — every field copied verbatim — and stores their JSON text as the
+  prophecy's claim content; `CreateEthClaimFromOracleString` / `ProcessSuccessfulClaim` read it back.  The JSON
+  codec itself is not modelled (for valid UTF-8 symbols it is a bijection on these fields). -/
+
+structure Content where
+  receiver : Str    -- address bytes
+  amount : Int
+  symbol : Str
+  token : Str       -- "0x" ++ hex
+  claimType : Nat
+  deriving Repr, DecidableEq
+
+/-- `NewOracleClaimContent` applied to the fields of a claim -/
+def oracleContent (c : Claim) : Content :=
+  { receiver := c.receiver, amount := c.amount, symbol := c.symbol, token := c.token, claimType := c.claimType }
+
 /-! ### Sifchain → Ethereum: `BurnLockEventToCosmosMsg` -/
 
 structure Attr where
